@@ -41,7 +41,8 @@ fn main() {
             }
         }
         writeln!(g, "    }} }}").unwrap();
-        writeln!(g, "    fn from_v(v: &V) -> Self {{ let V::Variant(tag, p) = v else {{ panic!(\"enum value expected\") }}; match tag {{").unwrap();
+        let pname = if d.variants.iter().all(|(_, fs)| fs.is_empty()) { "_p" } else { "p" };
+        writeln!(g, "    fn from_v(v: &V) -> Self {{ let V::Variant(tag, {pname}) = v else {{ panic!(\"enum value expected\") }}; match tag {{").unwrap();
         for (i, (v, fs)) in d.variants.iter().enumerate() {
             if fs.is_empty() {
                 writeln!(g, "        {i} => {}::{},", d.name, v).unwrap();
